@@ -182,9 +182,18 @@ func vxKnownOpen(key string) bool {
 	}
 	return false
 }
-func vxReach(string)               {}
-func vxUnwind(int, bool)           {}
-func vxGuard(_, _, _ string)       {}
+func vxReach(string)         {}
+func vxUnwind(int, bool)     {}
+func vxGuard(_, _, _ string) {}
+
+// vxSpawn runs f concurrently (natively: on another goroutine, shortly after the caller blocks).
+func vxSpawn(f func()) {
+	go func() {
+		time.Sleep(20 * time.Millisecond)
+		f()
+	}()
+}
+
 func vxConcretize(x, _, _ int) int { return x }
 func vxGuardsOff()                 {}
 
